@@ -109,6 +109,14 @@ def apply(data, f):
     if kind == "int_nudge":
         # an integer token (a count, an index) becomes another plausible integer
         toks = list(INT_RE.finditer(data))
+        if f.get("aim") == "traj_count":
+            # sizes of the per-point blocks of an optimisation / IRC trajectory ("... Results for each geome  R  N=  10")
+            sel = []
+            for t in toks:
+                ls_ = data.rfind(b"\n", 0, t.start()) + 1
+                if b"geome" in data[ls_: t.start()] and data[max(0, t.start() - 12): t.start()].rstrip().endswith(b"N="):
+                    sel.append(t)
+            toks = sel or toks
         if f.get("aim") == "count":
             # announced sizes: "N=   28" in formatted checkpoint files, the first number of a counts line
             counts = [t for t in toks if data[max(0, t.start() - 12): t.start()].rstrip().endswith(b"N=")]
@@ -117,8 +125,12 @@ def apply(data, f):
             return data
         m = toks[f["i"] % len(toks)]
         old = int(m.group())
-        new = {"dec": max(0, old - 1), "inc": old + 1, "half": old // 2, "double": old * 2, "minus2": max(0, old - 2), "third": old // 3,
-               "minus3": max(0, old - 3)}[f["how"]]
+        if f["how"].startswith("drop1of"):
+            q = int(f["how"][7:])
+            new = old - old // q if old % q == 0 else max(0, old - 1)  # one of q equal parts is gone
+        else:
+            new = {"dec": max(0, old - 1), "inc": old + 1, "half": old // 2, "double": old * 2, "minus2": max(0, old - 2), "third": old // 3,
+                   "minus3": max(0, old - 3)}[f["how"]]
         txt = str(new).encode()
         if len(txt) < m.end() - m.start():
             txt = txt.rjust(m.end() - m.start())
@@ -232,8 +244,9 @@ def random_fault(rng, data, kind, raw_offsets=None):
     if kind == "sep_insert":
         return {"kind": kind, "off": rng.randrange(max(1, n)), "sep": rng.choice(SEPARATORS), "replace": rng.random() < 0.5}
     if kind == "int_nudge":
-        return {"kind": kind, "i": rng.randrange(1 << 20), "how": rng.choice(["dec", "inc", "half", "double", "minus2", "third", "minus3"]),
-                "aim": rng.choice(["count", "any"])}
+        return {"kind": kind, "i": rng.randrange(1 << 20),
+                "how": rng.choice(["dec", "inc", "half", "double", "minus2", "third", "minus3"] + [f"drop1of{q}" for q in (2, 3, 4, 5, 6, 7)]),
+                "aim": rng.choice(["count", "any", "traj_count"])}
     if kind == "token_drop":
         nls = numeric_lines(data)
         return {"kind": kind, "line": rng.choice(nls) if nls else 0, "keep": rng.randrange(8)}
